@@ -117,3 +117,12 @@ claim('C07', 'proof',
       'Object/Ref/DNA/hyper clones and copy.copy/deepcopy are covered by the bounded tier.',
       'Trusted: engine; `base.clone` on children is the induction hypothesis; constructors establish a well-formed tree (C01).',
       'contract-based deductive verification (pyvc loop contracts) + bounded stand-in', 'DESIGN.md 5/C07')
+claim('C09', 'other',
+      '`Symbolic._notify_field_updates` is executed symbolically on an ancestor chain of three nodes with one or two updates (paths, keys and subscribe flags '
+      'symbolic): each ancestor-or-self of an update target receives exactly one `_on_change`, deepest first; a subscribing receiver gets exactly '
+      '{update.path - receiver.path: update} for the updates below it, a non-subscribing one {}; the three content caches are reset before the handler; '
+      'nothing else is touched; notify_parents=False stops at self. The tree shape is fixed per variant, so these 16 obligations are a BOUNDED stand-in and are '
+      'not counted as proved. Exactly-once delivery per mutating call, true old/new values and freshness of derived facts after histories are checked by the '
+      'bounded driver (instrumented trees, comparison with a deserialized copy after every step).',
+      'Trusted: engine; A-PATHORDER (KeyPath order on prefix-related paths is by depth). No unbounded obligation is discharged for C09 in this revision.',
+      'contract-based symbolic execution with a stated shape bound + bounded run-time oracle (labelled bounded, not proof)', 'DESIGN.md 5/C09')
